@@ -378,8 +378,22 @@ fn list_inhabited(
             };
             let neg_len = nt.prefix_items.len();
             if len < neg_len {
-                if items.is_never() {
+                if items.is_never() || items.is_empty(builder)? {
                     return list_inhabited(prefix_items, items, &neg.next, builder);
+                }
+                // the lists that are shorter than the negated tuple's prefix are outside it: each such
+                // length is a closed tuple of its own, to be checked against the remaining negations
+                let closed: Rc<SemType> = SemTypeContext::never().into();
+                for k in len..neg_len {
+                    let mut shorter = prefix_items.clone();
+                    for _i in len..k {
+                        shorter.push(items.clone());
+                    }
+                    if let ListInhabited::Yes =
+                        list_inhabited(&mut shorter, &closed, &neg.next, builder)?
+                    {
+                        return Ok(ListInhabited::Yes);
+                    }
                 }
                 for _i in len..neg_len {
                     prefix_items.push(items.clone());
@@ -427,9 +441,32 @@ fn list_inhabited(
                 }
             }
 
+            // a longer list with an element of the rest type that the negated rest type excludes: the
+            // element may sit at any position from `len` on, and positions beyond every remaining
+            // negation's prefix are interchangeable; the remaining negations have to be avoided as well
             let diff = items.diff(&nt.items)?;
             if let IsEmptyStatus::NotEmpty = diff.is_empty_status(builder)? {
-                return Ok(ListInhabited::Yes);
+                let mut longest = len;
+                let mut rest_negs = neg.next.clone();
+                while let Some(n) = rest_negs {
+                    let n_len = match n.atom {
+                        Atom::List(a) => builder.get_list_atomic(a).prefix_items.len(),
+                        Atom::Set(a) => builder.get_set_atomic(a).prefix_items.len(),
+                        _ => unreachable!(),
+                    };
+                    longest = std::cmp::max(longest, n_len);
+                    rest_negs = n.next.clone();
+                }
+                for at in len..=longest {
+                    let mut s = prefix_items.clone();
+                    for _i in len..at {
+                        s.push(items.clone());
+                    }
+                    s.push(diff.clone());
+                    if let ListInhabited::Yes = list_inhabited(&mut s, items, &neg.next, builder)? {
+                        return Ok(ListInhabited::Yes);
+                    }
+                }
             }
 
             // This is correct for length 0, because we know that the length of the
